@@ -83,6 +83,12 @@ def check_case(ctx: Ctx, case) -> None:
         ctx.fail("chart-parses", f"well-formed chart rejected: {type(e).__name__}: {e}", rc0)
         return
     bpm = chart.sync_track.bpm_events
+    # a second, different chart kept alive and used between the calls (charts share no state)
+    try:
+        shadow = L.parse(S.render({"res": spec["res"] + 1, "sync": [[0, "TS", 4], [0, "B", 150000], [9, "B", 99000]],
+                                   "events": [], "tracks": {"ExpertSingle": [[0, "N", 0, 0], [7, "N", 1, 0], [20, "N", 2, 5]]}}))
+    except Exception:  # noqa: BLE001
+        shadow = None
     present = list(spec["tracks"])
     inst_present = {S.HEADERS[h][0] for h in present}
     absent_same_inst = [h for h in S.HEADER_LIST if h not in present and S.HEADERS[h][0] in inst_present]
@@ -147,6 +153,11 @@ def check_case(ctx: Ctx, case) -> None:
                 want_error = "non-positive interval"
         # ---- call
         ctx.evaluations += 1
+        if shadow is not None and len(shown) != 1:
+            try:
+                shadow.notes_per_second(L.Instrument.GUITAR, L.Difficulty.EXPERT, *args)
+            except Exception:  # noqa: BLE001
+                pass
         try:
             got = chart.notes_per_second(inst, diff, *args)
         except ValueError as e:
